@@ -62,6 +62,7 @@ def run_batch(seed, n, profiles=("mixed",), ps=(0.1, 0.5, 0.9, 1.0), tracer=None
               trunc_p=0.3, env_hook=None, max_steps=400, gen_kw=None):
     rng = random.Random(seed)
     tracer = tracer or trace.Tracer()
+    tracer.want_pre = True
     base = jsl.load_config()
     eps = []
     for k in range(n):
@@ -132,3 +133,13 @@ if __name__ == "__main__":
         ep = next(e for e in eps if e.first <= k < e.last)
         print("---- clause", name, "record", k, pos, "episode", ep.idx, ep.feats)
         print(s)
+    ev = trace.monitor_events(tracer.records, drv)
+    print("event violations", len(ev), C.Counter(v[2] for v in ev).most_common())
+    seenc = set()
+    for k, n, name, pre, tr, post in ev:
+        if name in seenc:
+            continue
+        seenc.add(name)
+        ep = next(e for e in eps if e.first <= k < e.last)
+        print("---- event clause", name, "record", k, n, "episode", ep.idx, ep.feats)
+        print("PRE ", pre); print("TR  ", tr); print("POST", post)
